@@ -3,6 +3,16 @@ import concurrent.futures, json, os, re
 import vlib
 from vlib import coq_hex, coq_str, coq_list
 
+MANIFEST = {
+    "text": "Coq theorems (C12_roundtrip, C12_roundtrip_exact, C12_truncation_keeps_fields for every layout/message; "
+            "C12_wire_codec for all 24 client types) over codec layouts REGENERATED from pkg/protocol/codec on every run; "
+            "conformance to the independent Seata v1 table and registration are finite obligations re-checked by vm_compute; "
+            "the translator's reading of the byte helpers is validated by running the real CodecManager on generated "
+            "messages and comparing bytes/decoded values with the model inside Coq.",
+    "note": "Trusted: Coq kernel + vm_compute, no axioms; tools/xlate codec; SeataV1Spec.v transcription; harness run_codec. "
+            "32-bit length limits covered by theorem only.",
+    "technique": "Coq proof over translator-regenerated layout tables + differential correspondence (vm_compute)",
+}
 PROP_FILE = "Props/P_C12.v"
 TRUSTED = vlib.TRUSTED_COMMON + [
     "tools/xlate codec (go/ast + statement patterns; unmatched syntax -> FUnknown, rejected by wf_layout)",
